@@ -33,6 +33,7 @@ REF(64, a_u64)
     {                                                                                          \
         IN(T, poly);                                                                           \
         T tab[0x100];                                                                          \
+        POISON(tab);                                                                           \
         a_crc##W##m_init(tab, poly);                                                           \
         REACHED();                                                                             \
         for (unsigned i = 0; i < 0x100; ++i)                                                   \
@@ -44,6 +45,7 @@ REF(64, a_u64)
     {                                                                                          \
         IN(T, poly);                                                                           \
         T tab[0x100];                                                                          \
+        POISON(tab);                                                                           \
         a_crc##W##l_init(tab, poly);                                                           \
         T rp = refrev##W(poly);                                                                \
         REACHED();                                                                             \
